@@ -23,6 +23,11 @@ import SqiProofs.DrbgInc
 import SqiGen.Drbg
 import SqiProofs.AesCtMain
 import SqiProofs.Pad
+import SqiProofs.ChallengeScript
+import SqiGen.Challenge
+import SqiGen.Tables1
+import SqiGen.Tables3
+import SqiGen.Tables5
 
 namespace SqiProps.C20
 open SqiModel SqiModel.Sponge
@@ -195,6 +200,56 @@ open SqiModel.Challenge in
 theorem challenge_factors (xof : List UInt8 → Nat → List UInt8) (nwords iters : Nat) (j1 j2 msg : List UInt8) :
     hashToChallenge xof nwords iters j1 j2 msg
       = (1, leNat (iter (fun d => xof d (8 * nwords)) iters (xof (hashInput j1 j2 msg) (8 * nwords)))) := rfl
+
+/-- the call sequence of `hash_to_challenge`, re-extracted from each of the three sign.c files on every run (tie T:
+    malloc size, which curve each j-invariant comes from, the three writes into `buf` with their offsets, the SHAKE256
+    input length, the re-hash loop and its bound macro, the scalar conversion), is the sequence the model describes -/
+theorem h2c_scripts_extracted :
+    SqiGen.Challenge.dim2 = SqiModel.Challenge.expectedScript false ∧
+    SqiGen.Challenge.heuristic = SqiModel.Challenge.expectedScript true ∧
+    SqiGen.Challenge.hd = SqiModel.Challenge.expectedScript true := by decide
+
+open SqiModel.Challenge in
+/-- hence the extracted sequence of sqisigndim2 computes `hashToChallenge` with no re-hash: the SHAKE256 input is exactly
+    enc j(E_com) ‖ enc j(E_pk) ‖ message (all `length` bytes of it) for every message and every pair of w-byte encodings -/
+theorem h2c_dim2_eq_model (xof : List UInt8 → Nat → List UInt8) (w nwords ic : Nat) (jcom jpk msg : List UInt8)
+    (h1 : jcom.length = w) (h2 : jpk.length = w) :
+    SqiGen.Challenge.dim2.run xof w nwords ic jcom jpk msg = hashToChallenge xof nwords 0 jcom jpk msg := by
+  rw [h2c_scripts_extracted.1]; exact SqiProofs.Challenge.expected_run xof false w nwords ic jcom jpk msg h1 h2
+
+open SqiModel.Challenge in
+/-- the heuristic and HD variants: the same input, re-hashed `ic` = SQIsign2D_heuristic_challenge_hash_iteration times -/
+theorem h2c_heuristic_eq_model (xof : List UInt8 → Nat → List UInt8) (w nwords ic : Nat) (jcom jpk msg : List UInt8)
+    (h1 : jcom.length = w) (h2 : jpk.length = w) :
+    SqiGen.Challenge.heuristic.run xof w nwords ic jcom jpk msg = hashToChallenge xof nwords ic jcom jpk msg ∧
+    SqiGen.Challenge.hd.run xof w nwords ic jcom jpk msg = hashToChallenge xof nwords ic jcom jpk msg := by
+  rw [h2c_scripts_extracted.2.1, h2c_scripts_extracted.2.2]
+  exact ⟨SqiProofs.Challenge.expected_run xof true w nwords ic jcom jpk msg h1 h2,
+    SqiProofs.Challenge.expected_run xof true w nwords ic jcom jpk msg h1 h2⟩
+
+open SqiModel.Challenge in
+/-- the reduction step: scalars[0] = 1 and scalars[1] is the little-endian integer of the NWORDS_FIELD digits, so
+    0 ≤ challenge < 2^(64·NWORDS_FIELD) whenever the XOF returns the requested 8·NWORDS_FIELD bytes, and it depends on nothing
+    but the (iterated) hash output (`challenge_factors`) -/
+theorem challenge_range (xof : List UInt8 → Nat → List UInt8) (hx : ∀ m n, (xof m n).length = n) (nwords iters : Nat)
+    (j1 j2 msg : List UInt8) :
+    (hashToChallenge xof nwords iters j1 j2 msg).1 = 1 ∧
+    (hashToChallenge xof nwords iters j1 j2 msg).2 < 2 ^ (64 * nwords) := by
+  refine ⟨rfl, ?_⟩
+  have hl := SqiProofs.Challenge.challengeDigits_length xof hx nwords iters j1 j2 msg
+  have := SqiProofs.Challenge.leNat_lt (challengeDigits xof nwords iters j1 j2 msg)
+  rw [hl] at this
+  have e : (256 : Nat) ^ (8 * nwords) = 2 ^ (64 * nwords) := by
+    rw [show (256 : Nat) = 2 ^ 8 by rfl, ← Nat.pow_mul]; congr 1; omega
+  rw [← e]; exact this
+
+/-- the per-level constants the three variants instantiate the model with (FP2_ENCODED_BYTES, NWORDS_FIELD, iteration count) -/
+theorem h2c_level_constants :
+    SqiGen.L1.D_FP2_ENCODED_BYTES = 64 ∧ SqiGen.L1.D_NWORDS_FIELD = 4 ∧ SqiGen.L1.D_SQIsign2D_heuristic_challenge_hash_iteration = 16 ∧
+    SqiGen.L3.D_FP2_ENCODED_BYTES = 96 ∧ SqiGen.L3.D_NWORDS_FIELD = 6 ∧ SqiGen.L3.D_SQIsign2D_heuristic_challenge_hash_iteration = 256 ∧
+    SqiGen.L5.D_FP2_ENCODED_BYTES = 128 ∧ SqiGen.L5.D_NWORDS_FIELD = 8 ∧ SqiGen.L5.D_SQIsign2D_heuristic_challenge_hash_iteration = 64 ∧
+    SqiGen.L1.D_FP2_ENCODED_BYTES = 2 * (8 * SqiGen.L1.D_NWORDS_FIELD) ∧ SqiGen.L3.D_FP2_ENCODED_BYTES = 2 * (8 * SqiGen.L3.D_NWORDS_FIELD) ∧
+    SqiGen.L5.D_FP2_ENCODED_BYTES = 2 * (8 * SqiGen.L5.D_NWORDS_FIELD) := by decide
 
 example : SqiModel.Challenge.hashInput [1, 2] [3, 4] [5] ≠ SqiModel.Challenge.hashInput [1, 2] [3, 4] [5, 0] := by decide
 
